@@ -52,7 +52,7 @@ PROBES = [
     "new Proxy({}, {ownKeys(){ return [1] }}).x; Object.keys(new Proxy({}, {ownKeys(){ return [1] }}))",
     "new Proxy(function(){}, {construct(){ return 1 }}); new (new Proxy(function(){}, {construct(){ return 1 }}))()",
     "Object.getOwnPropertyDescriptor(new Proxy({}, {getOwnPropertyDescriptor(){ return 1 }}), 'x')",
-    "var p = new Proxy({}, {getPrototypeOf(){ return p }}); p instanceof Object", "Object.setPrototypeOf(Object.prototype, {})",
+    "Object.setPrototypeOf(Object.prototype, {})",
     "function f(){ f() } f()", "function f(){ try { f() } finally { f() } } f()", "var o = {get x(){ return this.x }}; o.x",
     "var a = []; a[0] = a; a.toString(); String([a, a])", "[].reduce(function(){})", "[1].reduceRight()", "Array.from({length: -1})",
     "[1,2,3].copyWithin(NaN, -Infinity, Infinity)", "[3,2,1].sort(function(){ throw 1 })", "[1,2].sort(1)",
@@ -73,7 +73,7 @@ PROBES = [
     "eval('var x; let x')", "eval('(' .repeat(1000))", "(0, eval)('let q = 1; q')", "new Function('a', '}', '{')", "Function('return this')()", "new Function('...a', 'b', '')",
     "with (null) {}", "with ({x: 1}) { eval('var x = 2'); x }", "label: label: ;", "'use strict'; arguments = 1", "delete Object.prototype.__proto__; ({}).__proto__",
     "Object.prototype.__defineGetter__.call(null, 'x', function(){})", "escape('\\ud800'); unescape('%u'); decodeURI('%'); encodeURI('\\ud800')",
-    "String.raw({raw: {length: 2**31}})", "'a'.localeCompare('b', 'xx-invalid-')", "'abc'.normalize('x')", "String.fromCodePoint(-1)", "'x'.at({valueOf(){ throw 1 }})",
+    "'a'.localeCompare('b', 'xx-invalid-')", "'abc'.normalize('x')", "String.fromCodePoint(-1)", "'x'.at({valueOf(){ throw 1 }})",
     "structuredClone", "globalThis.globalThis = 1; globalThis", "Object.freeze(globalThis); var zz = 1", "Object.defineProperty(globalThis, 'undefined', {value: 1})",
     "import('x')", "import.meta", "await 1", "yield 1", "new.target", "super.x", "#x in 1", "a?.b`c`", "for (let let of []) ;", "({a, b} = 1)", "[...1]", "`${{toString: null, valueOf: null}}`",
 ]
@@ -232,9 +232,9 @@ def attribute(hhost, sc):
     """which step kills the process: shortest prefix that dies, then that step alone on a fresh context"""
     steps = sc["steps"]
     for n in range(1, len(steps) + 1):
-        r = vlib.run_lines(hhost, [{"id": "p", "cfg": sc["cfg"], "steps": steps[:n]}])["p"]
+        r = vlib.run_lines(hhost, [{"id": "p", "cfg": sc["cfg"], "timeout_ms": 4 * TIMEOUT_MS, "steps": steps[:n]}])["p"]
         if "steps" not in r:
-            alone = vlib.run_lines(hhost, [{"id": "a", "cfg": sc["cfg"], "steps": [steps[n - 1]]}])["a"]
+            alone = vlib.run_lines(hhost, [{"id": "a", "cfg": sc["cfg"], "timeout_ms": TIMEOUT_MS, "steps": [steps[n - 1]]}])["a"]
             st = json.dumps(steps[n - 1])
             return {"step_index": n - 1, "step": st if len(st) < 4000 else st[:4000] + "...", "dies_alone_on_a_fresh_context": "steps" not in alone}
     return {"note": "did not reproduce on re-run"}
